@@ -118,6 +118,47 @@ func (g *G) CrewCase(profile string) CrewCase {
 		c.History = append(c.History, map[string]interface{}{"d": 2.0, "to": target}, map[string]interface{}{"to": "z", "go": "resurrect"})
 		c.Profile = "resurrect"
 	}
+	if g.P(1, 8) {
+		// a machine that has the captain create a worker and hands it its first jobs in the same
+		// breath: the messages to the worker are emitted before the worker exists
+		worker := g.PickS("w1", "w2")
+		sp := &SpecD{Name: "spawner", Nodes: map[string]*NodeD{}}
+		sp.Nodes["start"] = &NodeD{Branching: &BranchingD{Branches: []BranchD{{Target: "listen"}}}}
+		sp.Nodes["listen"] = &NodeD{Branching: &BranchingD{Type: "message", Branches: []BranchD{
+			{Pattern: map[string]interface{}{"go": "spawn"}, Target: "doit"}}}}
+		ops := [][]interface{}{
+			{"emit", map[string]interface{}{"to": "captain", "update": map[string]interface{}{worker: map[string]interface{}{
+				"spec": map[string]interface{}{"inline": InlineSpecJSON(c.Specs[names[0]])}}}}},
+		}
+		for k, nj := 0, 1+g.Intn(3); k < nj; k++ {
+			ops = append(ops, []interface{}{"emit", map[string]interface{}{"d": 1.0, "to": worker, "tag": "job", "i": float64(k)}})
+		}
+		sp.Nodes["doit"] = &NodeD{Action: &Prog{Lang: "es", Ret: "bs", Ops: ops},
+			Branching: &BranchingD{Type: "bindings", Branches: []BranchD{{Target: "listen"}}}}
+		c.Specs["spawner"] = sp
+		c.Init["s"] = CrewMachineD{Spec: "spawner", State: nil}
+		c.History = append(c.History, map[string]interface{}{"to": "s", "go": "spawn"})
+		if g.P(1, 2) {
+			c.History = append(c.History, map[string]interface{}{"d": 2.0, "to": worker})
+		}
+	}
+	if g.P(1, 25) {
+		// a long cascade inside one input: a machine that keeps messaging itself until its counter
+		// reaches a bound (nothing in the crew limits the number of fed-back messages)
+		bound := []float64{40, 300, 1500}[g.Intn(3)]
+		cd := &SpecD{Name: "countdown", Nodes: map[string]*NodeD{}}
+		cd.Nodes["start"] = &NodeD{Branching: &BranchingD{Branches: []BranchD{{Target: "listen"}}}}
+		cd.Nodes["listen"] = &NodeD{Branching: &BranchingD{Type: "message", Branches: []BranchD{
+			{Pattern: map[string]interface{}{"tick": true}, Target: "hop"}}}}
+		cd.Nodes["hop"] = &NodeD{Action: &Prog{Lang: "es", Ret: "bs", Ops: [][]interface{}{
+			{"inc", "hops"}, {"emit", map[string]interface{}{"to": "k", "tick": true}}}},
+			Branching: &BranchingD{Type: "bindings", Branches: []BranchD{
+				{Pattern: map[string]interface{}{"hops": bound}, Target: "done"}, {Target: "listen"}}}}
+		cd.Nodes["done"] = &NodeD{}
+		c.Specs["countdown"] = cd
+		c.Init["k"] = CrewMachineD{Spec: "countdown", State: nil}
+		c.History = append(c.History, map[string]interface{}{"to": "k", "tick": true})
+	}
 	nh := 2 + g.Intn(7)
 	for i := 0; i < nh; i++ {
 		var m map[string]interface{}
